@@ -241,6 +241,26 @@ fn c03_run(bw: &mut BWorker, payload: &[u8], io: &mut WorkerIo) -> Vec<u8> {
             if let Err(e) = copy_dir(&st.dir, &snapdir) {
                 return Some(format!("cannot copy the directory: {e}"));
             }
+            if cfg.flags & F_STATS_AT_SYNC != 0 {
+                // C17 at a sync point: the figures the live handle reports must be those of the files as they are now
+                *counters.entry("statistics_compared_at_sync_points".into()).or_insert(0) += 1;
+                for (mi, m) in cfg.maps.iter().enumerate() {
+                    if !cov[mi] {
+                        continue;
+                    }
+                    let img = match Image::read(&snapdir, &m.name) {
+                        Ok(i) => i,
+                        Err(e) => return Some(format!("{} returned Ok, but the files of map {} are unreadable: {e}", cfg.label(l), m.name)),
+                    };
+                    let d = crate::decoder::decode(&img.htx, &img.key, &img.val);
+                    if let Ok(h) = st.handle(cfg, mi, 0) {
+                        if let Some(e) = h.stats_complaint(&d) {
+                            return Some(format!("after {} returned Ok: {e} (files = a copy of the directory taken at that moment)", cfg.label(l)));
+                        }
+                    }
+                }
+                return None;
+            }
             if let Some(e) = check_files(cfg, &snapdir, &st.models, &cov) {
                 return Some(format!("{} returned Ok, but in a copy of the directory taken at that moment: {e}", cfg.label(l)));
             }
@@ -501,11 +521,12 @@ pub fn sync_point_pass(ctx: &mut Ctx, prop: &str, depth: u8, secs: f64) {
     let old = std::mem::replace(&mut ctx.pool, Pool::new(n, shim_env(), vec![]));
     drop(old);
     let maps = vec![
-        std_map(KtId::Bytes, 8, 2, 9, seed, "s-bytes"),
-        std_map(KtId::Str, 8, 1, 6, seed, "s-string"),
-        std_map(KtId::U64, 8, 1, 8, seed, "s-u64"),
-        std_map(KtId::I64, 8, 1, 8, seed, "s-i64"),
-        std_map(KtId::Vu64, 8, 1, 8, seed, "s-vu64"),
+        // names that differ only after the last dot: each map has its own three files
+        std_map(KtId::Bytes, 8, 2, 9, seed, "s.bytes"),
+        std_map(KtId::Str, 8, 1, 6, seed, "s.string"),
+        std_map(KtId::U64, 8, 1, 8, seed, "s.u64"),
+        std_map(KtId::I64, 8, 1, 8, seed, "s.i64"),
+        std_map(KtId::Vu64, 8, 1, 8, seed, "s.vu64"),
     ];
     let mut letters = Vec::new();
     for mi in 0..5u8 {
@@ -530,6 +551,40 @@ pub fn sync_point_pass(ctx: &mut Ctx, prop: &str, depth: u8, secs: f64) {
     ctx.states += st.sequences;
     ctx.transitions += st.calls;
     let n = ctx.pool.size();
+    let old = std::mem::replace(&mut ctx.pool, Pool::new(n, vec![], vec![]));
+    drop(old);
+}
+
+/// C17 at sync points: every sequence of the depth over put/delete on two keys and the three map-level
+/// durability calls; at every durability call that returns Ok the statistics of the live handle are compared
+/// with the independently decoded copy of the directory taken at that moment
+pub fn stats_at_sync_pass(ctx: &mut Ctx, depth: u8, secs: f64) {
+    let seed = ctx.seed;
+    let n = ctx.pool.size();
+    let old = std::mem::replace(&mut ctx.pool, Pool::new(n, shim_env(), vec![]));
+    drop(old);
+    let letters = vec![
+        Letter { kind: L_PUT, map: 0, handle: H_FIRST, key: 0, val: 0 },
+        Letter { kind: L_PUT, map: 0, handle: H_FIRST, key: 0, val: 1 },
+        Letter { kind: L_PUT, map: 0, handle: H_FIRST, key: 1, val: 0 },
+        Letter { kind: L_DEL, map: 0, handle: H_FIRST, key: 0, val: 0 },
+        Letter { kind: L_FLUSH, map: 0, handle: H_FIRST, key: 0, val: 0 },
+        Letter { kind: L_SYNC_DATA, map: 0, handle: H_FIRST, key: 0, val: 0 },
+        Letter { kind: L_SYNC_ALL, map: 0, handle: H_FIRST, key: 0, val: 0 },
+    ];
+    let cfg = BCfg { prop: "C17".into(), maps: vec![std_map(KtId::Bytes, 8, 2, 9, seed, "m")], val_lens: vec![6, 300], letters, depth, flags: F_STATS_AT_SYNC, seed, reopen: vec![], other_params: Params::defaults() };
+    let t0 = ctx.run.elapsed();
+    let st = explore_with(&cfg, ctx, JOB_C03_RUN, secs);
+    eprintln!("[C17] statistics at sync points: sequences={} calls={} complete={} {:.1}s", st.sequences, st.calls, st.complete, ctx.run.elapsed() - t0);
+    ctx.runs.push(J::obj(vec![
+        ("label", J::s("statistics at sync points: every sequence over put/delete on 2 keys and flush/sync_data/sync_all; at every durability call that returns Ok the figures of the live handle = the decoded copy of the directory")),
+        ("depth", J::Int(depth as i64)),
+        ("sequences", J::Int(st.sequences as i64)),
+        ("calls", J::Int(st.calls as i64)),
+        ("complete", J::Bool(st.complete)),
+    ]));
+    ctx.states += st.sequences;
+    ctx.transitions += st.calls;
     let old = std::mem::replace(&mut ctx.pool, Pool::new(n, vec![], vec![]));
     drop(old);
 }
@@ -1345,6 +1400,8 @@ pub fn c18_whole_histories(ctx: &mut Ctx) {
     letters.push(Letter { kind: L_FLUSH, map: 0, handle: H_FIRST, key: 0, val: 0 });
     // a bulk call: the order in which it applies its pairs must not depend on the process
     letters.push(Letter { kind: L_BULK_PUT, map: 0, handle: H_FIRST, key: 0, val: 0 });
+    // an update through a handle from a second lookup of the same name (the same state, not a second instance)
+    letters.push(Letter { kind: L_PUT, map: 0, handle: H_LOOKUP, key: 1, val: 1 });
     let cfg = BCfg { prop: "C18".into(), maps: vec![std_map(KtId::Bytes, 8, 2, 11, seed, "m")], val_lens: vec![4, 40, 70_000], letters, depth: if thorough { 5 } else { 4 }, flags: F_RETURN_IMAGES, seed, reopen: vec![], other_params: Params::defaults() };
     ctx.pool.reinit(vec![{
         let mut b = Buf::new();
